@@ -269,6 +269,7 @@ def check_histories(ctx, name, hists, impl, model, impl_env=None, chunk=150):
     """Run all histories; returns the number of disagreeing histories (reports up to 3)."""
     cov = ctx.cov
     bad_hists = []
+    bad_chunks = []
     outcomes = cov.setdefault("impl_outcomes", {})
     nontrivial = ctx.__dict__.setdefault("_distinct", set())
     nops = 0
@@ -290,6 +291,7 @@ def check_histories(ctx, name, hists, impl, model, impl_env=None, chunk=150):
             continue
         # locate the failing histories of this chunk one by one
         pos = 0
+        before = len(bad_hists)
         for h in part:
             a, b = o1[pos:pos + len(h)], o2[pos:pos + len(h)]
             pos += len(h)
@@ -300,13 +302,18 @@ def check_histories(ctx, name, hists, impl, model, impl_env=None, chunk=150):
                 bad_hists.append(h)
             if len(bad_hists) >= 3:
                 break
-        if len(bad_hists) >= 3:
+        if len(bad_hists) == before:
+            # the chunk differs as a whole (or the driver died on it) but none of its histories does when
+            # rerun alone: state carried from one history into the next.  The chunk itself is the failing input
+            bad_chunks.append((lines, first_diff(lines, rc1, o1, rc2, o2)))
+        if len(bad_hists) >= 3 or len(bad_chunks) >= 2:
             break
     cov["evaluations"] = cov.get("evaluations", 0) + nops
     cov["histories"] = cov.get("histories", 0) + len(hists)
     cov["traces_validated_against_impl"] = cov.get("traces_validated_against_impl", 0) + len(hists) - len(bad_hists)
     cov["distinct_nontrivial"] = len(nontrivial)
-    cov.setdefault("correspondences", {})[name] = {"histories": len(hists), "ops": nops, "disagreeing": len(bad_hists)}
+    cov.setdefault("correspondences", {})[name] = {"histories": len(hists), "ops": nops, "disagreeing": len(bad_hists),
+                                                   "disagreeing_chunks": len(bad_chunks)}
     for h in bad_hists:
         small = shrink(impl, model, h, impl_env)
         d = differs(impl, model, small, impl_env) or differs(impl, model, h, impl_env)
@@ -321,8 +328,19 @@ def check_histories(ctx, name, hists, impl, model, impl_env=None, chunk=150):
         ctx.violation("corr-" + name, obj, True,
                       "history (%d ops, shrunk from %d): %s\n  first difference at op `%s`: implementation `%s` vs proved model `%s`"
                       % (len(small) - 1, len(h) - 1, " ; ".join(small), obj["first_difference"]["op"], a, b))
-    cov["disagreements"] = cov.get("disagreements", 0) + len(bad_hists)
-    return len(bad_hists)
+    for (lines, d) in bad_chunks:
+        i, a, b = d
+        obj = {"kind": "correspondence", "engine": name, "history": lines, "original_length": len(lines),
+               "first_difference": {"line": i, "op": lines[min(i, len(lines) - 1)], "impl": a, "model": b},
+               "witness": "%s :: chunk of %d lines, first difference at line %d `%s`" % (name, len(lines), i, lines[min(i, len(lines) - 1)]),
+               "impl_driver": impl, "model_driver": model,
+               "note": "a sequence of histories run in ONE process of the driver: implementation and proved model differ (or the driver ended early) "
+                       "although every single history agrees when it is run alone -- state leaks from one history (one set of registries) into the next"}
+        ctx.violation("corr-" + name + "-chunk", obj, True,
+                      "%d histories run one after the other in one process (%d lines): first difference at line %d, op `%s`: implementation `%s` vs proved model `%s`; "
+                      "no single history of the chunk differs when run alone" % (sum(1 for l in lines if l.startswith("new ")), len(lines), i, obj["first_difference"]["op"], a, b))
+    cov["disagreements"] = cov.get("disagreements", 0) + len(bad_hists) + len(bad_chunks)
+    return len(bad_hists) + len(bad_chunks)
 
 
 def impl_env(extra=None):
